@@ -151,6 +151,60 @@ def payload_histories(rng, props, n, full=False):
     return out
 
 
+def takeover_histories(rng, props, n):
+    """A client gives up in the middle of its handshake after k datagrams (its Disconnect, sealed with the keys of ITS token,
+    reaches the server's half-open entry, or is lost), and a restarted client -- a fresh token for the same id, the same
+    address -- connects and exchanges payloads numbered from 0 again: nothing of the old attempt (keys, replay window,
+    counters) may survive in the new session, every genuine payload surfaces the first time it arrives."""
+    out = []
+    for i in range(n):
+        sc = NS("takeover-%d" % i, props, max_clients=2)
+        sc.token("TA", 11, timeout_s=5, expire_s=60)
+        sc.client("a", "TA", 1)
+        # the old attempt: request(s), challenge, then 0..4 responses that get lost, then the farewell
+        for _ in range(rng.randint(1, 3)):
+            nm = sc.name("rq")
+            sc.cupdate("a", 250, as_=nm)
+            ch = sc.name("ch")
+            sc.sdeliver(nm, as_=ch)
+        sc.cdeliver("a", ch)
+        for _ in range(rng.randint(0, 4)):
+            sc.cupdate("a", 250)            # a response that never arrives
+        sc.add(a="cdisconnect", c="a", as_="bye")
+        if rng.random() < 0.8:
+            sc.sdeliver("bye")
+        if rng.random() < 0.3:
+            sc.supdate(rng.choice([100, 1000]))
+        # the restarted program: a fresh token for the same id from the same address
+        sc.token("TB", 11, timeout_s=5, expire_s=60)
+        sc.client("b", "TB", 1)
+        sc.pump(["b"], dt=250, n=4)
+        names = []
+        for j in range(rng.randint(4, 9)):
+            if rng.random() < 0.7:
+                nm = sc.name("cp")
+                sc.cpayload("b", rng.choice([1, 20, 300]), as_=nm)
+                names.append(("S", nm))
+            else:
+                nm = sc.name("sp")
+                sc.spayload(11, rng.choice([1, 20]), as_=nm)
+                names.append(("C", nm))
+            if rng.random() < 0.3:
+                sc.pump(["b"], dt=250, n=1)
+        if rng.random() < 0.5:
+            rng.shuffle(names)
+        for to, nm in names:
+            if to == "S":
+                sc.sdeliver(nm)
+            else:
+                sc.cdeliver("b", nm)
+        # the old farewell once more, now that the address has a session with other keys
+        sc.sdeliver("bye", nonauth=True)
+        sc.pump(["b"], dt=250, n=2)
+        out.append(sc.s)
+    return out
+
+
 # ---------------------------------------------------------------------------------------------------------------
 # C05 / C10 / C19: handshake attacks and table histories
 # ---------------------------------------------------------------------------------------------------------------
